@@ -36,15 +36,16 @@ META = {
                   'assigns; read replies and snapshots are importable), class_props_derived (interface class = highest SECoP base class of the class chain, features = direct Feature '
                   'mixins; derived by the model from the MRO given as data), auto_props_ignore_cfg / report_class_props / class_props_cfg_independent (Module.__init__ applies the '
                   'configuration first and assigns implementation / interface_classes / features afterwards: for EVERY configuration the report states the interface class, '
-                  'features and implementation of the implementing class), cfg_prop_applied (all other declared module properties follow the configuration), table fact module_decls_auto.  '
+                  'features and implementation of the implementing class), cfg_prop_applied (all other declared module properties follow the configuration), table fact module_decls_auto, '
+                  'finish_constRO / constRO_of_finish (readonly / constant of a parameter derived from class + configuration + Parameter.finish: a constant parameter is read-only by construction).  '
                   'Tied to secnode.py / params.py / modulebase.py / properties.py / dispatcher.py by correspondence runs (model report = real report, the module property lists DERIVED from '
                   'class + configuration; model step = real step for every request of the sweep) and report-vs-behaviour monitors on generated nodes and on the shipped configurations.',
     'level_note': 'Trusted: Lean kernel + axioms; the order test of a LimitsType pair is classified with the limit checks (not '
                   'expressible in the described tuple datainfo); the datatype layer is an oracle (C01-C03): emits_importable, '
                   'described_datainfo_equiv and command_datainfo_equiv are proved relative to explicit oracle laws (about the datatypes of the node) and the corresponding facts are tested '
                   'on the implementation with the real client datatypes; property lists of ACCESSIBLES (description, group, visibility) are data taken from the real objects, '
-                  'those of MODULES are derived by the model from the declared properties of the class, class-level values and the configuration; strict JSON of the report '
-                  'is checked on the implementation only.',
+                  'those of MODULES are derived by the model from the declared properties of the class, class-level values and the configuration; strict JSON: the wire text of the '
+                  'real report must parse with Lean\'s JSON parser (the model has no serialiser).',
     'trusted': [
         'datatype oracle laws: a client datatype rebuilt from a datainfo accepts what the original accepts, and imports the '
         'export of every validated value (C01-C03); the same for the argument datatype of a command',
@@ -56,7 +57,7 @@ META = {
         'the MRO itself (Python C3 linearisation) and the qualified class name are data from the real class',
         'validation of a configured property value by the property\'s datatype (a refused value produces no node)',
         'main-unit substitution ($) — the datainfo is taken after configuration',
-        'json.dumps of the report (strictness is tested on the implementation)',
+        'json.dumps of the report (the text the real node produces is parsed in Lean; the model does not serialise)',
     ],
     'assumptions': ['Node.WF: distinct module names, distinct wire names per module, predefined names used for their kind',
                     'model_change_probe_ok: NoForeignReadOnly (datatypes, hooks and drivers do not use the error class ReadOnly for their own refusals)',
@@ -190,11 +191,30 @@ def module_init(mycls, mcfg):
     return {'decls': decls, 'preset': preset, 'cfg': cfg, 'impl': f'{mycls.__module__}.{mycls.__name__}'}
 
 
+def param_init(mycls, modobj, attr, acfg):
+    """how readonly / constant of a parameter come about, as data for the model: the values of the class-level Parameter
+    object and the configuration entries (a configured constant converted by the parameter's datatype)"""
+    cls_p = mycls.accessibles[attr]
+    pobj = modobj.parameters[attr]
+    acfg = acfg if isinstance(acfg, dict) else {}
+    cc = acfg.get('constant')
+    return {'clsReadonly': bool(cls_p.readonly), 'clsConstant': None if cls_p.constant is None else canon(cls_p.constant),
+            'cfgReadonly': None if acfg.get('readonly') is None else bool(acfg['readonly']),
+            'cfgConstant': None if cc is None else canon(pobj.datatype(cc))}
+
+
 def add_inits(node, rec, cfgs):
-    """attach `init` to every module of the node JSON (cfgs: module name -> its configuration dict)"""
+    """attach `init` to every module of the node JSON (cfgs: module name -> its configuration dict) and `pinit` to
+    every parameter"""
     for mj in rec['node']['modules']:
         modobj = node.secnode.modules[mj['name']]
         mycls, = type(modobj).__bases__
+        for aj in mj['accs']:
+            if aj['kind'] == 'param' and mj['name'] in cfgs:
+                try:
+                    aj['pinit'] = param_init(mycls, modobj, aj['attr'], cfgs[mj['name']].get(aj['attr']))
+                except Exception:
+                    aj['pinit'] = None
         try:
             # a module that is not in the configuration (made by a Pinata): its configuration is not known here
             mj['init'] = module_init(mycls, cfgs[mj['name']]) if mj['name'] in cfgs else None
